@@ -365,7 +365,7 @@ func vcRun(sc *vcScen, module *CachingEvaluator) (res string) {
 		case "Q":
 			i, rq := newReq(st.ci, st.gi, st.sa)
 			issue(i, rq, st.ci, st.gi)
-			time.Sleep(25 * time.Millisecond) // lets a background refresh started by this request finish
+			time.Sleep(40 * time.Millisecond) // lets a background refresh started by this request finish
 		case "C":
 			mu.Lock()
 			burstLookups, burstK, burstUpd = 0, st.k, st
@@ -397,7 +397,7 @@ func vcRun(sc *vcScen, module *CachingEvaluator) (res string) {
 			mu.Lock()
 			burstK = -1
 			mu.Unlock()
-			time.Sleep(25 * time.Millisecond)
+			time.Sleep(40 * time.Millisecond)
 		}
 	}
 
